@@ -68,6 +68,17 @@ class RequestModel:
     def prints(p):
         return [(i, e) for i, e in enumerate(p.events) if e[1] == "call" and re.search(RAW_PRINT, e[2])]
 
+    @classmethod
+    def final_prints(cls, p):
+        """the prints of a FINAL response: an interim one (a library-built response whose status is a 1xx constant, `100 Continue`) is not an answer"""
+        out = []
+        for i, e in cls.prints(p):
+            sc = cls.status_consts(p, e)
+            if sc and all(100 <= c <= 199 for c in sc) and not cls.arg_mentions(p, e, 0, RESPONSE):
+                continue
+            out.append((i, e))
+        return out
+
     @staticmethod
     def arg_mentions(p, e, k, needle):
         a = e[3][k] if len(e[3]) > k else None
